@@ -4,7 +4,7 @@ import stat
 import time
 import typing
 
-from pygopherd import gopherentry, handlers
+from pygopherd import GopherExceptions, gopherentry, handlers
 from pygopherd.handlers.base import BaseHandler
 
 
@@ -51,13 +51,19 @@ class DirHandler(BaseHandler):
         for file in self.files:
             # We look up the appropriate handler for this object, and ask
             # it to give us an entry object.
-            handler = handlers.HandlerMultiplexer.getHandler(
-                self.selectorbase + "/" + file,
-                self.searchrequest,
-                self.protocol,
-                self.config,
-                vfs=self.vfs,
-            )
+            try:
+                handler = handlers.HandlerMultiplexer.getHandler(
+                    self.selectorbase + "/" + file,
+                    self.searchrequest,
+                    self.protocol,
+                    self.config,
+                    vfs=self.vfs,
+                )
+            except GopherExceptions.FileNotFound:
+                # Nobody can serve this entry (dangling symlink, FIFO, a name
+                # the security filter rejects, a file deleted since we listed
+                # the directory...).  Leave it out; don't fail the whole listing.
+                continue
             fileentry = handler.getentry()
             self.prep_entriesappend(file, handler, fileentry)
 
